@@ -1,10 +1,27 @@
 """C04 action codec constants (rapidpro/models/actions.py, nodes.py, parsers/creation/flowparser.py):
 action type ↔ row type tables of both directions, the row-model keys each action class writes,
 attachment kinds and the cut `attachment[6:]`, contact properties, the default URN scheme.
-Read with `ast` from /repo's working tree on every run; tied by `Props.C04.tables_agree_actcodec`."""
+Tied by `Props.C04.tables_agree_actcodec`.
+
+HOW IT READS (DESIGN §2.5a)
+* action types and classes: RUNTIME (`action_map` of the live module, see t05_actions).
+* everything else: SOURCE STRUCTURE — which row-model keys an action class writes, which constructor a
+  row type leads to, are facts about branches of the code; reading them off behaviour would need a valid
+  action / row of every kind (that is the differential tie of the C04 check, not T1).  The two parser
+  functions are located BY CONTENT among all methods of `FlowParser` (the one whose `<row>.type == …`
+  branches build `…Action` objects; the one whose `<row>.type in […]` branches return `…Node` objects),
+  not by their private names; every `if` of the function is read wherever it stands (no assumption that
+  the chain is the first statement); list / tuple / set constants may stand in place or be hoisted to
+  class / module level (resolved against the live module).  `get_row_model_fields` is the public
+  export hook of the action classes.
+ORDER: the dispatch tables (`==` on distinct row types, type → row type) are lookups and the no-action /
+contact-property lists are membership tests: SORTED, compared up to order; the keys written per class are
+a set per class, classes sorted.  The media kinds are kept in source order (the order in which
+attachments are appended)."""
 import ast
 
-from ..extract_tables import _find_class, _find_func, _parse, lean_str, lean_str_list
+from .. import t1lib
+from ..extract_tables import _find_class, _parse, lean_str, lean_str_list
 from .t05_actions import action_map
 
 
@@ -113,10 +130,48 @@ def _row_fields_of(mod, cls_name: str):
     return ty, sorted(keys)
 
 
-def _str_list(node):
-    v = ast.literal_eval(node)
-    assert isinstance(v, list) and all(isinstance(x, str) for x in v), v
+_RESOLVE = None
+
+
+def _str_list(node, fn=None):
+    """a list / tuple / set of strings, literal or hoisted"""
+    v = _RESOLVE(node, fn) if _RESOLVE is not None else ast.literal_eval(node)
+    if isinstance(v, (set, frozenset)):
+        v = sorted(v)
+    v = list(v)
+    assert all(isinstance(x, str) for x in v), v
     return v
+
+
+def _is_row_type(n) -> bool:
+    return isinstance(n, ast.Attribute) and n.attr == "type" and isinstance(n.value, ast.Name)
+
+
+def _builds(body, suffix: str):
+    for st in body:
+        for n in ast.walk(st):
+            if isinstance(n, ast.Call) and isinstance(n.func, ast.Name) and n.func.id.endswith(suffix):
+                return n.func.id
+    return None
+
+
+def _locate_parsers(cls: ast.ClassDef):
+    """(function turning a row into an action, function turning a row into a node), by content"""
+    best_a, best_n = (0, None), (0, None)
+    for fn in t1lib.functions(cls):
+        ifs = [n for n in ast.walk(fn) if isinstance(n, ast.If)]
+        a = sum(1 for n in ifs if isinstance(n.test, ast.Compare) and len(n.test.ops) == 1 and isinstance(n.test.ops[0], ast.Eq)
+                and _is_row_type(n.test.left) and _builds(n.body, "Action"))
+        k = sum(1 for n in ifs if isinstance(n.test, ast.Compare) and len(n.test.ops) == 1 and isinstance(n.test.ops[0], ast.In)
+                and _is_row_type(n.test.left)
+                and any(isinstance(c, ast.Return) and isinstance(c.value, ast.Call) and isinstance(c.value.func, ast.Name)
+                        and c.value.func.id.endswith("Node") for st in n.body for c in ast.walk(st)))
+        if a > best_a[0]:
+            best_a = (a, fn)
+        if k > best_n[0]:
+            best_n = (k, fn)
+    assert best_a[1] is not None and best_n[1] is not None, "row → action / row → node functions not found in FlowParser"
+    return best_a[1], best_n[1]
 
 
 def tables() -> str:
@@ -124,6 +179,10 @@ def tables() -> str:
     nodes = _parse("rapidpro/models/nodes.py")
     fp = _parse("parsers/creation/flowparser.py")
     amap = action_map()
+    global _RESOLVE
+    fp_live = t1lib.load("rpft.parsers.creation.flowparser")
+    act_live = t1lib.load("rpft.rapidpro.models.actions")
+    _RESOLVE = t1lib.Resolver(fp_live.FlowParser, fp_live, act_live)
 
     export_rows, pass_through, export_keys = [], [], []
     seen_cls = set()
@@ -137,62 +196,55 @@ def tables() -> str:
             seen_cls.add(cls)
             export_keys.append((cls, keys))
 
-    # _get_row_action: the if / elif chain
-    gra = _find_func(_find_class(fp, "FlowParser"), "_get_row_action")
-    chain = gra.body[0]
-    assert isinstance(chain, ast.If)
+    # row → action: every `if` of the function that tests the row type
+    gra, grn = _locate_parsers(_find_class(fp, "FlowParser"))
     dispatch, prefix, prefix_cls, no_action = [], None, None, None
 
     def built_class(body):
-        for st in body:
-            for n in ast.walk(st):
-                if isinstance(n, ast.Call) and isinstance(n.func, ast.Name) and n.func.id.endswith("Action"):
-                    return n.func.id
-        return None
+        return _builds(body, "Action")
 
-    node = chain
-    while isinstance(node, ast.If):
+    for node in t1lib.find_all(gra, lambda n: isinstance(n, ast.If)):
         t = node.test
-        if isinstance(t, ast.Compare) and isinstance(t.ops[0], ast.Eq) and ast.unparse(t.left) == "row.type":
+        if isinstance(t, ast.Compare) and len(t.ops) == 1 and isinstance(t.ops[0], ast.Eq) and _is_row_type(t.left) \
+                and isinstance(t.comparators[0], ast.Constant):
             cls = built_class(node.body)
             assert cls, ast.unparse(t)
             dispatch.append((t.comparators[0].value, _ctor_type(actions, cls)))
-        elif isinstance(t, ast.Call) and ast.unparse(t.func) == "row.type.startswith":
-            prefix = t.args[0].value
+        elif isinstance(t, ast.Call) and isinstance(t.func, ast.Attribute) and t.func.attr == "startswith" and _is_row_type(t.func.value):
+            prefix = _RESOLVE(t.args[0], gra)
             prefix_cls = built_class(node.body)
-        elif isinstance(t, ast.Compare) and isinstance(t.ops[0], ast.In) and ast.unparse(t.left) == "row.type":
-            no_action = _str_list(t.comparators[0])
-            assert isinstance(node.body[0], ast.Return) and isinstance(node.body[0].value, ast.Constant) and node.body[0].value.value is None
-        else:
-            raise KeyError("unexpected test in _get_row_action: " + ast.unparse(t))
-        node = node.orelse[0] if len(node.orelse) == 1 else None
+        elif isinstance(t, ast.Compare) and len(t.ops) == 1 and isinstance(t.ops[0], ast.In) and _is_row_type(t.left):
+            no_action = _str_list(t.comparators[0], gra)
+            assert isinstance(node.body[0], ast.Return) and (node.body[0].value is None or (isinstance(node.body[0].value, ast.Constant) and node.body[0].value.value is None))
     assert prefix is not None and no_action is not None and prefix_cls is not None
     prefix_ctor = _ctor_type(actions, prefix_cls)  # "set_contact_{}"
     replace_needles = [
-        n.args[0].value for n in ast.walk(gra)
-        if isinstance(n, ast.Call) and isinstance(n.func, ast.Attribute) and n.func.attr == "replace" and ast.unparse(n.func.value) == "row.type"
+        _RESOLVE(n.args[0], gra) for n in t1lib.find_all(gra, lambda n: isinstance(n, ast.Call) and isinstance(n.func, ast.Attribute)
+                                                      and n.func.attr in ("replace", "removeprefix") and _is_row_type(n.func.value))
     ]
     props_parse = None
     for n in ast.walk(gra):
-        if isinstance(n, ast.Compare) and isinstance(n.ops[0], ast.NotIn) and ast.unparse(n.left) == "property":
-            props_parse = _str_list(n.comparators[0])
+        if isinstance(n, ast.Compare) and isinstance(n.ops[0], ast.NotIn) and isinstance(n.left, ast.Name) and props_parse is None:
+            try:
+                props_parse = _str_list(n.comparators[0], gra)
+            except (KeyError, AssertionError, TypeError):
+                pass
     media_parse = None
     for n in ast.walk(gra):
         if isinstance(n, ast.Call) and isinstance(n.func, ast.Name) and n.func.id == "zip":
-            media_parse = _str_list(n.args[0])
-            cols = [ast.unparse(e) for e in n.args[1].elts]
-            assert cols == ["row." + m for m in media_parse], cols
+            media_parse = _str_list(n.args[0], gra)
+            cols = [e.attr for e in n.args[1].elts if isinstance(e, ast.Attribute)]
+            assert cols == list(media_parse), cols
     scheme_parse = None
     for n in ast.walk(gra):
-        if isinstance(n, ast.BoolOp) and isinstance(n.op, ast.Or) and ast.unparse(n.values[0]) == "row.urn_scheme":
-            scheme_parse = n.values[1].value
+        if isinstance(n, ast.BoolOp) and isinstance(n.op, ast.Or) and isinstance(n.values[0], ast.Attribute) and n.values[0].attr == "urn_scheme":
+            scheme_parse = _RESOLVE(n.values[1], gra)
 
     # _get_row_node: row type → node class → the action class its constructor creates
-    grn = _find_func(_find_class(fp, "FlowParser"), "_get_row_node")
     node_dispatch = []
-    for n in ast.walk(grn):
-        if isinstance(n, ast.If) and isinstance(n.test, ast.Compare) and isinstance(n.test.ops[0], ast.In) and ast.unparse(n.test.left) == "row.type":
-            types = _str_list(n.test.comparators[0])
+    for n in t1lib.find_all(grn, lambda n: isinstance(n, ast.If)):
+        if isinstance(n.test, ast.Compare) and isinstance(n.test.ops[0], ast.In) and _is_row_type(n.test.left):
+            types = _str_list(n.test.comparators[0], grn)
             for st in n.body:
                 for c in ast.walk(st):
                     if isinstance(c, ast.Return) and isinstance(c.value, ast.Call) and isinstance(c.value.func, ast.Name) and c.value.func.id.endswith("Node"):
@@ -210,8 +262,11 @@ def tables() -> str:
     sm = _own_method(_find_class(actions, "SendMessageAction"), "get_row_model_fields")
     media_export, cut = None, None
     for n in ast.walk(sm):
-        if isinstance(n, ast.For) and isinstance(n.iter, ast.List):
-            media_export = _str_list(n.iter)
+        if isinstance(n, ast.For) and media_export is None:
+            try:
+                media_export = _str_list(n.iter, sm)
+            except (KeyError, AssertionError, TypeError):
+                pass
         if isinstance(n, ast.Subscript) and isinstance(n.slice, ast.Slice) and ast.unparse(n.value) == "attachment":
             assert n.slice.upper is None and n.slice.step is None
             cut = n.slice.lower.value
@@ -221,31 +276,36 @@ def tables() -> str:
     props_load = None
     scp = _own_method(_find_class(actions, "SetContactPropertyAction"), "_assign_fields_from_dict")
     for n in ast.walk(scp):
-        if isinstance(n, ast.Compare) and isinstance(n.ops[0], ast.In) and ast.unparse(n.left) == "property" and isinstance(n.comparators[0], ast.List):
-            props_load = _str_list(n.comparators[0])
+        if isinstance(n, ast.Compare) and isinstance(n.ops[0], ast.In) and isinstance(n.left, ast.Name) and props_load is None:
+            try:
+                props_load = _str_list(n.comparators[0], scp)
+            except (KeyError, AssertionError, TypeError):
+                pass
     urn = _own_method(_find_class(actions, "AddContactURNAction"), "get_row_model_fields")
     scheme_export = None
     for n in ast.walk(urn):
         if isinstance(n, ast.Compare) and isinstance(n.ops[0], ast.NotEq) and ast.unparse(n.left) == "self.scheme":
-            scheme_export = n.comparators[0].value
+            scheme_export = _RESOLVE(n.comparators[0], urn)
     assert props_load and props_parse and media_parse and scheme_parse is not None and scheme_export is not None
 
     return (
-        f"def acExportRowType : List (List Char × List Char) := {_pairs(export_rows)}\n"
-        f"def acPassThrough : List (List Char) := {lean_str_list(pass_through)}\n"
+        "-- lookup tables / sets: sorted\n"
+        f"def acExportRowType : List (List Char × List Char) := {_pairs(sorted(export_rows))}\n"
+        f"def acPassThrough : List (List Char) := {lean_str_list(sorted(pass_through))}\n"
         "def acExportKeys : List (List Char × List (List Char)) := ["
-        + ", ".join(f"({lean_str(c)}, {lean_str_list(k)})" for c, k in export_keys) + "]\n"
-        f"def acParseDispatch : List (List Char × List Char) := {_pairs(dispatch)}\n"
+        + ", ".join(f"({lean_str(c)}, {lean_str_list(k)})" for c, k in sorted(export_keys)) + "]\n"
+        f"def acParseDispatch : List (List Char × List Char) := {_pairs(sorted(dispatch))}\n"
         f"def acParsePrefix : List Char := {lean_str(prefix)}\n"
         f"def acParsePrefixCtor : List Char := {lean_str(prefix_ctor)}\n"
         f"def acParseReplaceNeedles : List (List Char) := {lean_str_list(replace_needles)}\n"
-        f"def acNoActionRowTypes : List (List Char) := {lean_str_list(no_action)}\n"
-        f"def acNodeDispatch : List (List Char × List Char) := {_pairs(node_dispatch)}\n"
+        f"def acNoActionRowTypes : List (List Char) := {lean_str_list(sorted(no_action))}\n"
+        f"def acNodeDispatch : List (List Char × List Char) := {_pairs(sorted(node_dispatch))}\n"
+        "-- media kinds: source order (order in which attachments are appended)\n"
         f"def acMediaKindsExport : List (List Char) := {lean_str_list(media_export)}\n"
         f"def acMediaKindsParse : List (List Char) := {lean_str_list(media_parse)}\n"
         f"def acMediaCut : Nat := {cut}\n"
-        f"def acContactPropsLoad : List (List Char) := {lean_str_list(props_load)}\n"
-        f"def acContactPropsParse : List (List Char) := {lean_str_list(props_parse)}\n"
+        f"def acContactPropsLoad : List (List Char) := {lean_str_list(sorted(props_load))}\n"
+        f"def acContactPropsParse : List (List Char) := {lean_str_list(sorted(props_parse))}\n"
         f"def acDefaultSchemeExport : List Char := {lean_str(scheme_export)}\n"
         f"def acDefaultSchemeParse : List Char := {lean_str(scheme_parse)}\n"
     )
